@@ -582,7 +582,18 @@ func (cs *ConsensusState) tryAddVote(vote *types.Vote, peerID p2p.ID) (bool, err
 				timestamp = cstate.MedianTime(cs.LastCommit.MakeCommit(), cs.LastValidators)
 			}
 
-			evidence := types.NewDuplicateVoteEvidence(voteErr.VoteA, voteErr.VoteB, timestamp, cs.Validators)
+			// Conflicting precommits for the previous height (LastCommit) were signed under the
+			// previous validator set.
+			vals := cs.Validators
+			if voteErr.VoteA.Height+1 == cs.Height && cs.LastValidators != nil {
+				vals = cs.LastValidators
+			}
+			evidence := types.NewDuplicateVoteEvidence(voteErr.VoteA, voteErr.VoteB, timestamp, vals)
+			if evidence == nil {
+				// the validator is not in that set: nothing to report
+				cs.Logger.Error("Conflicting votes from a validator outside the validator set", "height", vote.Height)
+				return added, err
+			}
 			evidenceErr := cs.evpool.AddEvidenceFromConsensus(evidence)
 			if evidenceErr != nil {
 				cs.Logger.Error("Failed to add evidence to the evidence pool", "err", evidenceErr)
